@@ -56,6 +56,98 @@ fn base_decls() -> BTreeMap<&'static str, Decl> {
     m
 }
 
+/// Reference-kind table: one subject per way in which one top-level declaration can refer to another
+/// (provider(s), consumer), plus a filler declaration that refers to nothing (it moves the others around
+/// in every order the sort may produce). Faulty consumers carry one fault whose code and place must not move.
+fn reference_kinds(thorough: bool) -> Vec<Subject> {
+    let level = ("Level", "type", "TYPE Level : ( Low , High ) := Low ; END_TYPE");
+    let rng = ("Rng", "type", "TYPE Rng : INT ( 0 .. 10 ) ; END_TYPE");
+    let pt = ("Pt", "type", "TYPE Pt : STRUCT x : INT ; END_STRUCT ; END_TYPE");
+    let arr = ("Arr", "type", "TYPE Arr : ARRAY [ 1 .. 3 ] OF INT ; END_TYPE");
+    let str_t = ("Str", "type", "TYPE Str : STRING [ 10 ] ; END_TYPE");
+    let a1 = ("A1", "type", "TYPE A1 : Level ; END_TYPE");
+    let callee = ("Callee", "fb", "FUNCTION_BLOCK Callee VAR_INPUT a : INT ; END_VAR VAR_OUTPUT q : INT ; END_VAR q := a ; END_FUNCTION_BLOCK");
+    let func = ("Fn", "function", "FUNCTION Fn : INT VAR_INPUT a : INT ; END_VAR Fn := a + 1 ; END_FUNCTION");
+    let main = ("Main", "program", "PROGRAM Main VAR n : INT ; END_VAR n := 1 ; END_PROGRAM");
+    let cfg = ("cfg", "configuration", "CONFIGURATION cfg VAR_GLOBAL CONSTANT G : INT := 1 ; END_VAR RESOURCE res ON PLC TASK t ( INTERVAL := T#100ms , PRIORITY := 1 ) ; PROGRAM p1 WITH t : Main ; END_RESOURCE END_CONFIGURATION");
+    type D = (&'static str, &'static str, &'static str);
+    // (label, providers, consumer, faulty)
+    let table: Vec<(&'static str, Vec<D>, D, bool)> = vec![
+        ("alias-of-enum", vec![level], ("C", "type", "TYPE C : Level ; END_TYPE"), false),
+        ("alias-of-enum-with-default", vec![level], ("C", "type", "TYPE C : Level := High ; END_TYPE"), false),
+        ("alias-of-alias", vec![level, a1], ("C", "type", "TYPE C : A1 ; END_TYPE"), false),
+        ("struct-element-enum", vec![level], ("C", "type", "TYPE C : STRUCT lv : Level ; n : INT ; END_STRUCT ; END_TYPE"), false),
+        ("struct-element-enum-default", vec![level], ("C", "type", "TYPE C : STRUCT lv : Level := High ; n : INT ; END_STRUCT ; END_TYPE"), false),
+        ("struct-element-alias-default", vec![level, a1], ("C", "type", "TYPE C : STRUCT lv : A1 := High ; END_STRUCT ; END_TYPE"), false),
+        ("struct-element-struct", vec![pt], ("C", "type", "TYPE C : STRUCT p : Pt ; END_STRUCT ; END_TYPE"), false),
+        ("struct-element-subrange-default", vec![rng], ("C", "type", "TYPE C : STRUCT r : Rng := 3 ; END_STRUCT ; END_TYPE"), false),
+        ("struct-element-array", vec![arr], ("C", "type", "TYPE C : STRUCT a : Arr ; END_STRUCT ; END_TYPE"), false),
+        ("struct-element-string", vec![str_t], ("C", "type", "TYPE C : STRUCT s : Str ; END_STRUCT ; END_TYPE"), false),
+        ("array-of-struct", vec![pt], ("C", "type", "TYPE C : ARRAY [ 1 .. 2 ] OF Pt ; END_TYPE"), false),
+        ("array-of-enum", vec![level], ("C", "type", "TYPE C : ARRAY [ 1 .. 2 ] OF Level ; END_TYPE"), false),
+        ("alias-of-subrange", vec![rng], ("C", "type", "TYPE C : Rng ; END_TYPE"), false),
+        ("alias-of-struct", vec![pt], ("C", "type", "TYPE C : Pt ; END_TYPE"), false),
+        ("struct-initialisation-type", vec![pt], ("C", "type", "TYPE C : Pt := ( x := 1 ) ; END_TYPE"), false),
+        ("var-enum-default", vec![level], ("C", "fb", "FUNCTION_BLOCK C VAR lv : Level := High ; END_VAR lv := Low ; END_FUNCTION_BLOCK"), false),
+        ("var-alias-default", vec![level, a1], ("C", "fb", "FUNCTION_BLOCK C VAR lv : A1 := High ; END_VAR lv := Low ; END_FUNCTION_BLOCK"), false),
+        ("var-enum-typed-value", vec![level], ("C", "fb", "FUNCTION_BLOCK C VAR lv : Level := Level#High ; END_VAR lv := Low ; END_FUNCTION_BLOCK"), false),
+        ("var-struct", vec![pt], ("C", "fb", "FUNCTION_BLOCK C VAR p : Pt ; END_VAR p.x := 1 ; END_FUNCTION_BLOCK"), false),
+        ("var-struct-unused", vec![pt], ("C", "fb", "FUNCTION_BLOCK C VAR p : Pt ; n : INT ; END_VAR n := 1 ; END_FUNCTION_BLOCK"), false),
+        ("var-array-unused", vec![arr], ("C", "fb", "FUNCTION_BLOCK C VAR a : Arr ; n : INT ; END_VAR n := 1 ; END_FUNCTION_BLOCK"), false),
+        ("function-return-type-unused", vec![level], ("C", "function", "FUNCTION C : Level VAR_INPUT a : INT ; END_VAR a := 1 ; END_FUNCTION"), false),
+        ("var-struct-initialised", vec![pt], ("C", "fb", "FUNCTION_BLOCK C VAR p : Pt := ( x := 1 ) ; END_VAR p.x := 2 ; END_FUNCTION_BLOCK"), false),
+        ("var-array", vec![arr], ("C", "fb", "FUNCTION_BLOCK C VAR a : Arr ; END_VAR a [ 1 ] := 1 ; END_FUNCTION_BLOCK"), false),
+        ("var-subrange-default", vec![rng], ("C", "fb", "FUNCTION_BLOCK C VAR r : Rng := 3 ; END_VAR r := 4 ; END_FUNCTION_BLOCK"), false),
+        ("var-string-type", vec![str_t], ("C", "fb", "FUNCTION_BLOCK C VAR s : Str ; END_VAR s := 'a' ; END_FUNCTION_BLOCK"), false),
+        ("fb-instance", vec![callee], ("C", "fb", "FUNCTION_BLOCK C VAR i : Callee ; n : INT ; END_VAR i ( a := n , q => n ) ; END_FUNCTION_BLOCK"), false),
+        ("fb-instance-in-program", vec![callee], ("C", "program", "PROGRAM C VAR i : Callee ; n : INT ; END_VAR i ( a := n , q => n ) ; END_PROGRAM"), false),
+        ("fb-as-input", vec![callee], ("C", "fb", "FUNCTION_BLOCK C VAR_IN_OUT i : Callee ; END_VAR VAR n : INT ; END_VAR n := 1 ; END_FUNCTION_BLOCK"), false),
+        ("function-call", vec![func], ("C", "fb", "FUNCTION_BLOCK C VAR n : INT ; END_VAR n := Fn ( a := n ) ; END_FUNCTION_BLOCK"), false),
+        ("function-calls-function", vec![func], ("C", "function", "FUNCTION C : INT VAR_INPUT a : INT ; END_VAR C := Fn ( a ) ; END_FUNCTION"), false),
+        ("function-return-type", vec![level], ("C", "function", "FUNCTION C : Level VAR_INPUT a : INT ; END_VAR C := High ; END_FUNCTION"), false),
+        ("function-input-type", vec![pt], ("C", "function", "FUNCTION C : INT VAR_INPUT p : Pt ; END_VAR C := p.x ; END_FUNCTION"), false),
+        ("external-of-global", vec![main, cfg], ("C", "fb", "FUNCTION_BLOCK C VAR_EXTERNAL CONSTANT G : INT ; END_VAR VAR n : INT ; END_VAR n := G ; END_FUNCTION_BLOCK"), false),
+        ("program-in-configuration", vec![main], ("C", "configuration", "CONFIGURATION C RESOURCE res ON PLC TASK t ( INTERVAL := T#100ms , PRIORITY := 1 ) ; PROGRAM p1 WITH t : Main ; END_RESOURCE END_CONFIGURATION"), false),
+        ("global-of-enum-type", vec![level, main], ("C", "configuration", "CONFIGURATION C VAR_GLOBAL g : Level ; END_VAR RESOURCE res ON PLC PROGRAM p1 : Main ; END_RESOURCE END_CONFIGURATION"), false),
+        ("global-of-struct-type", vec![pt, main], ("C", "configuration", "CONFIGURATION C VAR_GLOBAL g : Pt ; END_VAR RESOURCE res ON PLC PROGRAM p1 : Main ; END_RESOURCE END_CONFIGURATION"), false),
+        // one fault in the consumer
+        ("fault/alias-default-undeclared-value", vec![level], ("C", "type", "TYPE C : Level := Nope ; END_TYPE"), true),
+        ("fault/struct-element-default-undeclared-value", vec![level], ("C", "type", "TYPE C : STRUCT lv : Level := Nope ; n : INT ; END_STRUCT ; END_TYPE"), true),
+        ("fault/var-default-undeclared-value", vec![level], ("C", "fb", "FUNCTION_BLOCK C VAR lv : Level := Nope ; END_VAR lv := Low ; END_FUNCTION_BLOCK"), true),
+        ("fault/var-alias-default-undeclared-value", vec![level, a1], ("C", "fb", "FUNCTION_BLOCK C VAR lv : A1 := Nope ; END_VAR lv := Low ; END_FUNCTION_BLOCK"), true),
+        ("fault/global-unknown-type", vec![level, main], ("C", "configuration", "CONFIGURATION C VAR_GLOBAL g : Missing ; END_VAR RESOURCE res ON PLC PROGRAM p1 : Main ; END_RESOURCE END_CONFIGURATION"), true),
+        ("fault/struct-element-unknown-type", vec![level], ("C", "type", "TYPE C : STRUCT lv : Level ; m : Missing ; END_STRUCT ; END_TYPE"), true),
+        ("fault/var-unknown-type", vec![level], ("C", "fb", "FUNCTION_BLOCK C VAR lv : Level ; m : Missing ; END_VAR lv := Low ; END_FUNCTION_BLOCK"), true),
+        ("fault/unknown-formal-of-instance", vec![callee], ("C", "fb", "FUNCTION_BLOCK C VAR i : Callee ; n : INT ; END_VAR i ( nope := n ) ; END_FUNCTION_BLOCK"), true),
+        ("fault/undeclared-variable-beside-instance", vec![callee], ("C", "fb", "FUNCTION_BLOCK C VAR i : Callee ; n : INT ; END_VAR i ( a := n ) ; zz := 1 ; END_FUNCTION_BLOCK"), true),
+        ("fault/external-not-constant", vec![main, cfg], ("C", "fb", "FUNCTION_BLOCK C VAR_EXTERNAL G : INT ; END_VAR VAR n : INT ; END_VAR n := G ; END_FUNCTION_BLOCK"), true),
+        ("fault/undefined-task", vec![main], ("C", "configuration", "CONFIGURATION C RESOURCE res ON PLC PROGRAM p1 WITH nope : Main ; END_RESOURCE END_CONFIGURATION"), true),
+        ("fault/self-reference-through-provider", vec![("Pt", "type", "TYPE Pt : STRUCT c : C ; END_STRUCT ; END_TYPE")], ("C", "type", "TYPE C : STRUCT p : Pt ; END_STRUCT ; END_TYPE"), true),
+    ];
+    let filler_fb = ("Other", "fb", "FUNCTION_BLOCK Other VAR n : INT ; END_VAR n := 1 ; END_FUNCTION_BLOCK");
+    let filler_ty = ("Unrelated", "type", "TYPE Unrelated : INT ( 0 .. 1 ) ; END_TYPE");
+    let mut out = vec![];
+    for (label, providers, consumer, faulty) in table {
+        let mut decls: Vec<Decl> = providers.iter().map(|(n, k, w)| d(n, k, w)).collect();
+        let mut c = d(consumer.0, consumer.1, consumer.2);
+        c.faulty = faulty;
+        decls.push(c);
+        decls.push(d(filler_fb.0, filler_fb.1, filler_fb.2));
+        if thorough && decls.len() < 5 {
+            decls.push(d(filler_ty.0, filler_ty.1, filler_ty.2));
+        }
+        let name: &'static str = Box::leak(format!("{}{}", if faulty { "ref/" } else { "ref/valid/" }, label).into_boxed_str());
+        out.push(Subject { name, decls, single_fault: faulty });
+    }
+    out
+}
+
+pub fn subjects_for(thorough: bool) -> Vec<Subject> {
+    let mut v = subjects();
+    v.extend(reference_kinds(thorough));
+    v
+}
+
 pub fn subjects() -> Vec<Subject> {
     let b = base_decls();
     let s = |name: &'static str, keys: &[&str], single_fault: bool| Subject { name, decls: keys.iter().map(|k| b[k].clone()).collect(), single_fault };
@@ -233,11 +325,12 @@ fn describe(s: &Subject, a: &Arrangement) -> String {
 
 pub fn run(ctx: &mut Ctx) {
     let thorough = ctx.tier.thorough();
-    let subs = subjects();
-    ctx.rule = "subject sets (6 valid cross-referencing sets, 10 single-fault sets, 2 sets of 8 declarations) x arrangements (<= 5 declarations: all permutations x all set partitions into <= 3 files x all file iteration orders; more: the stated family x <= 2 files) x {analyze on per-file libraries, FileBackedProject::semantic with the file-order seam}; distinct = distinct (subject, arrangement, entry point)".into();
+    let subs = subjects_for(thorough);
+    ctx.rule = "subject sets (6 valid cross-referencing sets, 10 single-fault sets, 2 sets of 8 declarations, and the reference-kind table: one set per way a top-level declaration can refer to another — alias, structure element with and without default, array element, variable type / default / initialiser, instance, call, result and parameter type, external, program and global in a configuration — as provider(s) + consumer + a filler declaration (thorough: two fillers), 37 valid and 12 single-fault consumers) x arrangements (<= 5 declarations: all permutations x all set partitions into <= 3 files x all file iteration orders; more: the stated family x <= 2 files) x {analyze on per-file libraries, FileBackedProject::semantic with the file-order seam}; distinct = distinct (subject, arrangement, entry point)".into();
     ctx.assumptions.push("anchor of a label = (name of the enclosing top-level declaration, lexeme index inside it), so that moving a declaration to another file or offset does not change its anchor; labels that point into no declaration (e.g. the 0..0 default span) are compared by code only".into());
     ctx.assumptions.push("hash seeds cannot be enumerated: every orbit representative is additionally executed 8 times on fresh threads (repetition, not enumeration)".into());
     let mut total = 0u64;
+    let mut unexpected: Vec<Value> = vec![];
     for s in &subs {
         if ctx.over_budget(s.name) {
             break;
@@ -278,6 +371,14 @@ pub fn run(ctx: &mut Ctx) {
             e.0 += 1;
         }
         ctx.outcome_n(&format!("{}: {} distinct result(s)", s.name, groups.len()), arrs.len() as u64);
+        if groups.len() == 1 {
+            let k = groups.keys().next().unwrap();
+            let kind = if k == "OK" { "accepted in every arrangement".to_string() } else { format!("rejected in every arrangement: {}", crate::util::short(k, 80)) };
+            ctx.outcome_n(&format!("{} sets {}", if s.single_fault { "single-fault" } else { "valid" }, if k == "OK" { "accepted in every arrangement" } else { "rejected in every arrangement" }), 1);
+            if (k == "OK") == s.single_fault {
+                unexpected.push(json!({"subject": s.name, "result": kind}));
+            }
+        }
         if groups.len() > 1 {
             // the majority result is the reference; every other result is reported with its smallest witness
             let (major, _) = groups.iter().max_by_key(|(_, v)| v.0).unwrap();
@@ -317,6 +418,7 @@ pub fn run(ctx: &mut Ctx) {
         ctx.sample(json!({"subject": s.name, "arrangement": describe(s, &arrs[arrs.len() / 3]), "arrangements": arrs.len()}));
     }
     ctx.states = total / 2;
+    ctx.extra.insert("sets_whose_verdict_differs_from_their_name (order independence is still checked on them)".into(), json!(unexpected));
 
     // conformance of the seam: the real binary (random hash order) x N per multi-file set must give a result that one of the enumerated file orders gives
     let reps = if thorough { 20 } else { 5 };
@@ -379,8 +481,10 @@ pub fn run(ctx: &mut Ctx) {
 
 pub fn replay(case: &Value) -> Result<String, String> {
     let name = case["subject"].as_str().ok_or("subject")?;
-    let subs = subjects();
-    let s = subs.iter().find(|s| s.name == name).ok_or("unknown subject")?;
+    let n = case["perm"].as_array().map(|a| a.len()).unwrap_or(0);
+    let mut subs = subjects_for(false);
+    subs.extend(subjects_for(true));
+    let s = subs.iter().find(|s| s.name == name && (n == 0 || s.decls.len() == n)).ok_or("unknown subject")?;
     let get = |v: &Value| -> Option<Arrangement> {
         Some(Arrangement {
             perm: v["perm"].as_array()?.iter().map(|x| x.as_u64().unwrap_or(0) as usize).collect(),
